@@ -333,7 +333,7 @@ pub fn run(tier: Tier) -> i32 {
     let mut ctx = Ctx::new("C03", tier);
     let pre = preflight();
     let seed = ctx.seed;
-    let per = tier.n(3000, 30_000);
+    let per = tier.n(3000, 150_000);
     let mut tally = ctx.par(32, |s| shard(seed, s, per));
     let years = if tier == Tier::Quick {
         2014i64..=2026
